@@ -28,6 +28,7 @@ import (
 	"github.com/smartcontractkit/libocr/offchainreporting2plus/ocr3types"
 	ocr2plustypes "github.com/smartcontractkit/libocr/offchainreporting2plus/types"
 
+	"github.com/smartcontractkit/chainlink-automation/pkg/util"
 	ocr2keepers "github.com/smartcontractkit/chainlink-automation/pkg/v3"
 	"github.com/smartcontractkit/chainlink-automation/pkg/v3/config"
 	"github.com/smartcontractkit/chainlink-automation/pkg/v3/coordinator"
@@ -922,6 +923,44 @@ func TestC06(t *testing.T) {
 		{"cov_lost_acceptance", "find_idx race_lost cases"},
 	})
 	WriteJSON(t, filepath.Join(dir, "cases_race.json"), map[string]any{"property": "C06", "cases": races})
+	if ReplayFile() != "" {
+		return
+	}
+	// two-phase garbage collection racing a Set (second finding): a fresh item must survive ClearExpired
+	n := EnvInt("VERIF_GC_RACES", 25000)
+	lost := gcRaces(n)
+	var viol []map[string]any
+	if lost > 0 {
+		viol = append(viol, map[string]any{"what": "util.Cache.ClearExpired deleted an item that was Set after it had collected the expired keys",
+			"lost": lost, "races": n, "theorem": "C06_gc_recheck_invisible"})
+	}
+	WriteJSON(t, filepath.Join(dir, "direct.json"), map[string]any{
+		"evaluations": n, "nontrivial_keys": []string{"gc-race"}, "violations": viol, "known": map[string]any{},
+		"samples": []any{map[string]any{"gc_races": n, "fresh_items_lost": lost}}, "distribution": map[string]int{"gc_races": n},
+	})
+}
+
+// gcRaces runs n races between ClearExpired (40 expired keys to collect) and a Set that replaces one of
+// them with a fresh item, on the real util.Cache with the real clock; returns how often the fresh item was lost.
+func gcRaces(n int) int {
+	lost := 0
+	for i := 0; i < n; i++ {
+		c := util.NewCache[int](time.Hour)
+		c.Set("k", 1, time.Nanosecond)
+		for j := 0; j < 40; j++ {
+			c.Set(string(rune('a'+j)), 1, time.Nanosecond)
+		}
+		time.Sleep(time.Microsecond)
+		var wg sync.WaitGroup
+		wg.Add(2)
+		go func() { defer wg.Done(); c.ClearExpired() }()
+		go func() { defer wg.Done(); c.Set("k", 2, time.Hour) }()
+		wg.Wait()
+		if _, ok := c.Get("k"); !ok {
+			lost++
+		}
+	}
+	return lost
 }
 
 func TestC07(t *testing.T) {
